@@ -86,7 +86,7 @@ claim("C08", "E2", "stateless choice-point exploration: configuration axes "
 claim("C09", "E3", "explicit-state BFS over operation histories, each "
       "re-executed in a fresh fork of a pristine process image; differential "
       "oracle against a pristine process on the same filesystem state",
-      "all histories up to depth 3 (quick) / 5 (thorough) over 20 operations, "
+      "all histories up to depth 3 (quick) / 5 (thorough) over 22 operations, "
       "deduplicated on (canonical sandbox, introspective process-state scan); "
       "the last operation's observable is compared with the same operation "
       "in a pristine fork, cross-validated against a brand-new interpreter",
